@@ -179,6 +179,10 @@ structure Tbl where
   (true: the stream restarts, every call replays the draws of "run 0") instead of the process-wide
   generator (false: every draw is a fresh one) -/
   seedRestart : Bool
+  /-- the add-simulations loop hands `Infrastructure.generate_emissions` the same keyword arguments
+  as the regenerate-all loop (false: an argument is missing / different, the callee's default or
+  another value applies to the ADDED scenarios only) -/
+  extendSameArgs : Bool
   /-- `hash_file` feeds the whole file to the hasher (loop until EOF / unbounded read); false: a
   single bounded read, i.e. only a first block -/
   hashWholeFile : Bool
@@ -258,11 +262,17 @@ def infraStage (t : Tbl) (vv : VV) (gid : Nat) (force : Bool) (d : Disk) :
         some (instIOps t.regenOps (storeOf t.hashedRegen (t.viewVV vv)) ⟨vv, gid⟩ d, ⟨vv, gid⟩, false)
     | _ => none
 
+/-- what the add-simulations loop generates from: the infrastructure in memory, or - when the loop's
+call differs from the regenerate-all loop's - that infrastructure under another value of a
+virtual-world parameter -/
+def extendGen (t : Tbl) (mem : Gen) : Gen :=
+  if t.extendSameArgs then mem else { mem with vv := mem.vv.set .vw (mem.vv.vw + 1) }
+
 /-- `initialize_emissions` (without the seed time series) -/
 def emisStage (t : Tbl) (n : Nat) (hfe : Bool) (mem : Gen) (d : Disk) : Option (List Step) :=
   if hfe then
     match d.count with
-    | .ok c => some (if c < n then instPhases t.emisExtend mem c n else [])
+    | .ok c => some (if c < n then instPhases t.emisExtend (extendGen t mem) c n else [])
     | _ => none
   else
     some (instPhases t.emisRegen mem 0 n)
